@@ -16,6 +16,10 @@ import pickle
 import random as _random
 import warnings
 
+import re as _re
+
+_ADDR = _re.compile(r" at 0x[0-9a-fA-F]+")  # object addresses differ between the reference fork and the run
+
 PROP_NAMES_IBAN = [
     "compact", "length", "formatted", "numeric", "country_code", "checksum_digits",
     "national_checksum_digits", "bank_code", "branch_code", "account_code", "account_id",
@@ -53,11 +57,18 @@ def canon(v, depth: int = 0):
     mod = type(v).__module__ or ""
     if isinstance(v, str):
         if mod.startswith("schwifty"):
+            # the *value* of the object: text, country and (for an IBAN) its BBAN - read through the public
+            # attributes, never through __dict__ (whether something is cached there yet is not part of the value)
             out = [tname, str.__str__(v)]
-            cc = v.__dict__.get("country_code") if hasattr(v, "__dict__") else None
-            if cc is not None:
-                out.append(["cc", canon(cc, depth + 1)])
-            bban = v.__dict__.get("bban") if hasattr(v, "__dict__") else None
+            if tname == "BBAN":
+                try:
+                    out.append(["cc", canon(v.country_code, depth + 1)])
+                except Exception:  # noqa: BLE001
+                    pass
+            try:
+                bban = getattr(v, "bban", None) if tname == "IBAN" else None
+            except Exception:  # noqa: BLE001
+                bban = None
             if bban is not None:
                 out.append(["bban", canon(bban, depth + 1)])
             return out
@@ -83,12 +94,12 @@ def canon(v, depth: int = 0):
         return ["country", getattr(v, "alpha_2", None), getattr(v, "name", None)]
     if hasattr(v, "__dataclass_fields__"):
         return [tname, canon({k: getattr(v, k) for k in v.__dataclass_fields__}, depth + 1)]
-    return ["obj", mod + "." + tname, repr(v)[:200]]
+    return ["obj", mod + "." + tname, _ADDR.sub(" at 0x?", repr(v))[:200]]
 
 
 def exc_outcome(e: BaseException):
     t = type(e)
-    return ["exc", f"{t.__module__}.{t.__qualname__}", str(e)[:400]]
+    return ["exc", f"{t.__module__}.{t.__qualname__}", _ADDR.sub(" at 0x?", str(e))[:400]]
 
 
 def _props(obj, names):
